@@ -311,6 +311,22 @@ func (e *rtEnv) dumpStore() []string {
 	return out
 }
 
+// lseenByProg sums, per program name, the lines-seen counters the store holds under that name.
+func (e *rtEnv) lseenByProg() map[string]int64 {
+	out := map[string]int64{}
+	_ = e.store.Range(func(m *metrics.Metric) error {
+		if m.Name == "lseen" {
+			for _, lv := range m.LabelValues {
+				if d, ok := lv.Value.(*datum.Int); ok {
+					out[m.Program] += d.Get()
+				}
+			}
+		}
+		return nil
+	})
+	return out
+}
+
 func (e *rtEnv) dumpHandles() string {
 	hs := e.rt.VerifHandles()
 	var out []string
